@@ -1,7 +1,8 @@
 /-
 Model of `paroxython/make_db.py` (TagDatabase.__init__, get_json's data, write_sqlite's rows) and of the
 relabelling loop of `paroxython/label_programs.py: labelled_programs`, AS WRITTEN NOW in /repo
-(after fix ca3b9c8: the importation closure is an iterative visited-set traversal).
+(after fixes ca3b9c8: the importation closure is an iterative visited-set traversal, and 77a08ea:
+an import is internal when the *path* it names is collected).
 
 Core Lean only. Strings are lists of Unicode code points (`Codes`); Python's `str` order is the
 lexicographic order on code points, which is `compare` on `List Nat`.
@@ -157,13 +158,16 @@ def tweakFirstColon : Name → Name
 /-- `s.replace(a, b)` for single characters -/
 def replaceChar (a b : Nat) (s : Name) : Name := s.map fun c => if c = a then b else c
 
-/-- `{p.path.replace("/", ".") for p in programs} | {".py"}` as a list. -/
-def internalPaths (paths : List Name) : List Name :=
-  paths.map (replaceChar cSlash cDot) ++ [sPy]
+/-- `{p.path for p in programs} | {".py"}` as a list (after fix 77a08ea: path form, no dot form). -/
+def internalPaths (paths : List Name) : List Name := paths ++ [sPy]
 
+/-- `if m and f"{m[1].replace('.', '/')}.py" in internal_program_paths:` then the first colon becomes
+`_internally:` and every dot a slash. -/
 def relabelName (internal : List Name) (n : Name) : Name :=
   match searchImport? n with
-  | some g => if (g ++ sPy) ∈ internal then replaceChar cDot cSlash (tweakFirstColon n) else n
+  | some g =>
+    if (replaceChar cDot cSlash g ++ sPy) ∈ internal then replaceChar cDot cSlash (tweakFirstColon n)
+    else n
   | none => n
 
 def relabel (internal : List Name) (ls : List Label) : List Label :=
